@@ -10,6 +10,7 @@ import (
 	"math/big"
 	"net/http"
 	"strings"
+	"sync"
 	"time"
 
 	"github.com/iden3/go-iden3-crypto/poseidon"
@@ -34,12 +35,16 @@ func stateOf(c, rv, ro *big.Int) *string {
 func statusFaults() []statusFault {
 	return []statusFault{
 		{name: "none"},
-		{name: "state-replaced", mod: func(rs *verifiable.RevocationStatus, is *Issuer, nonce uint64, r *Rng) { rs.Issuer.State = hexOfInt(r.BigBelow(poseidonQ())) }},
+		{name: "state-replaced", mod: func(rs *verifiable.RevocationStatus, is *Issuer, nonce uint64, r *Rng) {
+			rs.Issuer.State = hexOfInt(r.BigBelow(poseidonQ()))
+		}},
 		{name: "state-nil", mod: func(rs *verifiable.RevocationStatus, is *Issuer, nonce uint64, r *Rng) { rs.Issuer.State = nil }},
 		{name: "claims-root-replaced", mod: func(rs *verifiable.RevocationStatus, is *Issuer, nonce uint64, r *Rng) {
 			rs.Issuer.ClaimsTreeRoot = hexOfInt(r.BigBelow(poseidonQ()))
 		}},
-		{name: "claims-root-dropped", mod: func(rs *verifiable.RevocationStatus, is *Issuer, nonce uint64, r *Rng) { rs.Issuer.ClaimsTreeRoot = nil }},
+		{name: "claims-root-dropped", mod: func(rs *verifiable.RevocationStatus, is *Issuer, nonce uint64, r *Rng) {
+			rs.Issuer.ClaimsTreeRoot = nil
+		}},
 		{name: "rev-root-replaced", mod: func(rs *verifiable.RevocationStatus, is *Issuer, nonce uint64, r *Rng) {
 			rs.Issuer.RevocationTreeRoot = hexOfInt(r.BigBelow(poseidonQ()))
 		}},
@@ -60,7 +65,9 @@ func statusFaults() []statusFault {
 		{name: "roots-root-replaced", mod: func(rs *verifiable.RevocationStatus, is *Issuer, nonce uint64, r *Rng) {
 			rs.Issuer.RootOfRoots = hexOfInt(r.BigBelow(poseidonQ()))
 		}},
-		{name: "existence-flipped", mod: func(rs *verifiable.RevocationStatus, is *Issuer, nonce uint64, r *Rng) { rs.MTP.Existence = !rs.MTP.Existence }},
+		{name: "existence-flipped", mod: func(rs *verifiable.RevocationStatus, is *Issuer, nonce uint64, r *Rng) {
+			rs.MTP.Existence = !rs.MTP.Existence
+		}},
 		{name: "sibling-changed", mod: func(rs *verifiable.RevocationStatus, is *Issuer, nonce uint64, r *Rng) {
 			np := rebuildProof(&rs.MTP, func(ex *bool, sibs *[]*merkletree.Hash, aux **merkletree.NodeAux) {
 				if len(*sibs) == 0 {
@@ -135,9 +142,60 @@ func statusFaults() []statusFault {
 	}
 }
 
+// the process-wide default registry: a resolver for the reverse-SMT status type answering from one fixed issuer.
+// Calls without a registry option must be answered by it, whatever registries earlier calls were given.
+var (
+	defaultRegOnce    sync.Once
+	defaultRegIssuer  *Issuer
+	defaultRegRevoked = map[uint64]bool{}
+	defaultRegMu      sync.Mutex
+)
+
+func setupDefaultRegistry() {
+	defaultRegOnce.Do(func() {
+		r := NewRng(4242)
+		defaultRegIssuer = NewIssuer(r, 2)
+		for _, x := range []uint64{5, 77, 1 << 40, (1 << 40) + 5, 9007199254740993, 1<<63 + 12345} {
+			if err := defaultRegIssuer.revs.Add(context.Background(), new(big.Int).SetUint64(x), big.NewInt(0)); err == nil {
+				defaultRegRevoked[x] = true
+			}
+		}
+		verifiable.RegisterStatusResolver(verifiable.Iden3ReverseSparseMerkleTreeProof, statusResolver{func(st verifiable.CredentialStatus) (verifiable.RevocationStatus, error) {
+			defaultRegMu.Lock()
+			defer defaultRegMu.Unlock()
+			return defaultRegIssuer.RevStatus(st.RevocationNonce), nil
+		}})
+	})
+}
+
+// defaultRegistryCase validates a nonce with no registry option: the default registry's issuer decides
+func defaultRegistryCase(out *Out, r *Rng) {
+	ctx := context.Background()
+	qs := []uint64{5, 6, 77, 1 << 40, (1 << 40) + 5, (1 << 40) + 4, 9007199254740993, 1<<63 + 12345, 1<<63 + 12344, r.U64()}
+	q := qs[r.Intn(len(qs))]
+	defaultRegMu.Lock()
+	answered := defaultRegIssuer.RevStatus(q)
+	defaultRegMu.Unlock()
+	_, err := guard(10*time.Second, func() (int, error) {
+		_, e := verifiable.ValidateCredentialStatus(ctx, verifiable.CredentialStatus{ID: "https://status.example/default", Type: verifiable.Iden3ReverseSparseMerkleTreeProof, RevocationNonce: q})
+		return 0, e
+	})
+	impl := classify(err)
+	var why []string
+	if defaultRegRevoked[q] && impl["err"] != "revoked" {
+		why = append(why, fmt.Sprintf("no registry option: nonce %d is in the default registry's revocation tree but the result is %v (%v)", q, impl, err))
+	}
+	if !defaultRegRevoked[q] && err != nil {
+		why = append(why, fmt.Sprintf("no registry option: nonce %d is absent from the default registry's revocation tree but validation fails: %v", q, err))
+	}
+	out.Emit(Case{Op: "verify.status", In: J{"answer": statusAnswerJ(answered, nil), "nonce": fmt.Sprint(q), "fault": "none"}, Impl: impl, Prop: propOf(why),
+		Tags: []string{"fault:none", "default-registry", fmt.Sprintf("member:%v", defaultRegRevoked[q])}, NT: true})
+}
+
 func genC09(out *Out, r *Rng, tier string, n int, shard int) {
 	ctx := context.Background()
 	faults := statusFaults()
+	setupDefaultRegistry()
 	for i := 0; i < n; i++ {
 		is := NewIssuer(r, r.Intn(5))
 		// revoked set: empty / sparse / dense / sharing low bits with the queried nonce
@@ -213,15 +271,20 @@ func genC09(out *Out, r *Rng, tier string, n int, shard int) {
 			}
 			out.Emit(Case{Op: "verify.status", In: J{"answer": statusAnswerJ(answered, nil), "nonce": fmt.Sprint(q), "fault": f.name}, Impl: impl, Prop: propOf(why),
 				Tags: []string{"fault:" + f.name, fmt.Sprintf("mode:%d", mode), fmt.Sprintf("member:%v", revoked[q])}, NT: true})
+			if qi%3 == 1 {
+				defaultRegistryCase(out, r)
+			}
 		}
-		// unregistered type, resolver error
-		_, err := verifiable.ValidateCredentialStatus(ctx, verifiable.CredentialStatus{ID: "x", Type: "NoSuchStatusType", RevocationNonce: 1},
-			verifiable.WithValidationStatusResolverRegistry(&verifiable.CredentialStatusResolverRegistry{}))
-		var why []string
-		if err == nil {
-			why = append(why, "unregistered status type accepted")
+		{
+			// unregistered type, resolver error
+			_, err := verifiable.ValidateCredentialStatus(ctx, verifiable.CredentialStatus{ID: "x", Type: "NoSuchStatusType", RevocationNonce: 1},
+				verifiable.WithValidationStatusResolverRegistry(&verifiable.CredentialStatusResolverRegistry{}))
+			var why []string
+			if err == nil {
+				why = append(why, "unregistered status type accepted")
+			}
+			out.Emit(Case{Op: "verify.status", In: J{"answer": J{"err": "err"}, "nonce": "1", "fault": "unregistered"}, Impl: classify(err), Prop: propOf(why), Tags: []string{"fault:unregistered"}, NT: true})
 		}
-		out.Emit(Case{Op: "verify.status", In: J{"answer": J{"err": "err"}, "nonce": "1", "fault": "unregistered"}, Impl: classify(err), Prop: propOf(why), Tags: []string{"fault:unregistered"}, NT: true})
 		if i%3 == 0 {
 			emitHTTP(out, r, is)
 		}
